@@ -119,6 +119,33 @@ def run_c12(tier, seed):
             enc, enc_ok = [], 0
             chk.violation("reflection:encode-raised:%s" % type(e).__name__, {"mode": c["mode"], "text": c["text"], "error": str(e)[:200]})
             continue
+        if ci % 15 == 0:
+            # the `fcp encode` command writes the same record: its file must hold exactly these (TLC-judged) bytes
+            try:
+                from click.testing import CliRunner
+                from fcp.__main__ import encode as encode_cmd
+                from fcp.reflection import _get_reflection_path
+                src = os.path.join(chk.workdir, "main.fcp")
+                dst = os.path.join(chk.workdir, "schema.bin")
+                with open(src, "w") as f:
+                    f.write(c["text"])
+                if os.path.exists(dst):
+                    os.remove(dst)
+                res_cli = CliRunner().invoke(encode_cmd, [str(_get_reflection_path()), src, dst])
+                chk.count(1, traces=1)
+                if res_cli.exception is not None or not os.path.exists(dst):
+                    chk.violation("reflection:encode-command-failed", {"mode": c["mode"], "text": c["text"],
+                                                                      "error": repr(res_cli.exception), "output": (res_cli.output or "")[:300]})
+                else:
+                    # meta.filename differs (path vs "main.fcp"): compare with an in-process encode of the file-parsed schema
+                    from fcp.parser import get_fcp
+                    rec2 = get_fcp(src).unwrap().reflection()
+                    if open(dst, "rb").read() != bytes(serde.encode(rfcp, "Fcp", rec2)):
+                        chk.violation("reflection:encode-command-writes-other-bytes", {"mode": c["mode"], "text": c["text"]})
+                    elif strip_meta(rec2) != strip_meta(rec):
+                        chk.violation("reflection:file-and-string-entry-differ", {"mode": c["mode"], "text": c["text"]})
+            except ImportError:
+                pass
         st2, dec = pycodec.decode(rfcp, rsch, "Fcp", enc)
         eid = "e%d" % ci
         events.append({"id": eid, "kind": "enc", "schema": rsch, "root": "Fcp", "value": val, "ok": enc_ok, "bytes": enc})
